@@ -93,6 +93,8 @@ fn main() {
 		"C14" => props::c14::run(&mut ctx),
 		"C16" => props::c16::run(&mut ctx),
 		#[cfg(not(feature = "nocrypto"))]
+		"C12" => props::c12::run(&mut ctx),
+		#[cfg(not(feature = "nocrypto"))]
 		"C18" => props::c18::run(&mut ctx),
 		#[cfg(not(feature = "nocrypto"))]
 		"C19" => props::c19::run(&mut ctx),
